@@ -2916,3 +2916,149 @@ func checkRepeatCount(c *Ctx, rule string) {
 		r.OK(rule, "no-repeat", "-", "strings.Repeat is not used")
 	}
 }
+
+// ---- C17.history-not-as-motion (round 7): gg / G under an operator stay in the buffer
+func checkHistoryNotUnderOperator(c *Ctx, rule string) {
+	p, r := c.P, c.R
+	r.Rule(rule, "K4", "the two movements bound in Vi command mode that fall back to the history when the cursor is already at the end they go to (beginning-of-buffer-or-history `gg`, end-of-buffer-or-history `G`) reach their history branch only when no operator is pending (Local() != vi-opp known there): as the motion of an operator they only give a range, and `ygg` at the start of the line must not replace the buffer with a history line", 2)
+	n := 0
+	for _, fn := range []string{"(*readline.Shell).beginningOfBufferOrHistory", "(*readline.Shell).endOfBufferOrHistory"} {
+		f := p.Func(fn)
+		if f == nil {
+			continue
+		}
+		r.Fn(fn)
+		bf := blockFacts(f)
+		for i, cl := range allCalls(f, false) {
+			h := staticCallee(cl)
+			if h == nil || !strings.HasPrefix(fnName(h), "(*readline.Shell).") || !(strings.Contains(fnName(h), "History") || strings.Contains(fnName(h), "history")) {
+				continue
+			}
+			n++
+			notOpp := false
+			for fc := range factsAt(bf, cl.(ssa.Instruction)) {
+				rel, ok := relOf(fc.Cond, fc.Val)
+				if !ok || rel.Op != token.NEQ {
+					continue
+				}
+				isLocal := dependsOn(rel.X, func(v ssa.Value) bool { return isCallNamed(v, "(*keymap.Engine).Local") })
+				if s, isS := constString(stripConv(rel.Y)); isLocal && isS && s == "vi-opp" {
+					notOpp = true
+				}
+			}
+			r.Check(notOpp, rule, fmt.Sprintf("%s:history-branch#%d", fn, i), p.IPos(cl.(ssa.Instruction)), "under Local() != vi-opp", "the movement walks the history also when it is the motion of a pending operator: with the cursor already at that end of the line, y"+map[bool]string{true: "gg", false: "G"}[strings.Contains(fn, "beginning")]+" replaces the buffer with a history line")
+		}
+	}
+	if n == 0 {
+		r.Unk(rule, "history branches", "-", "none found: anchor changed")
+	}
+}
+
+// ---- round 8 rules: C18.stop-record-keeps-accept-key, C18.start-record-sets-register, C19.quote-test-agrees-with-reader, C19.inputrc-dump-untruncated
+func checkRound8C18(c *Ctx) {
+	p, r := c.P, c.R
+	r.Rule("C18.stop-record-keeps-accept-key", "K5", "every place where acceptLineWith ends a macro recording hands StopRecord the keys that ran the accepting command (Keys.Caller()): the Return that ends a recording is part of the macro, and a sibling call that omits it stores a macro which replays without accepting the line", 1)
+	if AL := p.Func("(*readline.Shell).acceptLineWith"); AL != nil {
+		r.Fn(fnName(AL))
+		n := 0
+		for i, cl := range callsTo(AL, true, "(*macro.Engine).StopRecord") {
+			n++
+			args := cl.Common().Args
+			good := len(args) >= 2 && dependsOn(args[len(args)-1], func(v ssa.Value) bool { return isCallNamed(v, "(*core.Keys).Caller") })
+			r.Check(good, "C18.stop-record-keeps-accept-key", siteKey(AL, "StopRecord", i), p.IPos(cl.(ssa.Instruction)), "given the caller keys", "this StopRecord is not given the keys that ran the command: a macro whose recording is ended by accepting the line is stored without its Return on this path, and replaying it leaves the line unaccepted")
+		}
+		if n == 0 {
+			r.Unk("C18.stop-record-keeps-accept-key", fnName(AL)+":StopRecord", p.Pos(AL.Pos()), "acceptLineWith does not stop the recording: anchor changed")
+		}
+	} else {
+		r.Unk("C18.stop-record-keeps-accept-key", "(*readline.Shell).acceptLineWith", "-", "anchor not found")
+	}
+	r.Rule("C18.start-record-sets-register", "K1", "StartRecord writes the register the recording will be stored under (Engine.currentKey) on every path that starts recording — the unnamed Emacs-style recording included: StopRecord stores the macro under currentKey, and a value left from an earlier named recording makes an unnamed macro overwrite that register", 1)
+	if SR := p.Func("(*macro.Engine).StartRecord"); SR != nil {
+		r.Fn(fnName(SR))
+		starts := func(in ssa.Instruction) bool {
+			st, ok := isFieldStore(in, "macro.Engine", "recording")
+			if !ok {
+				return false
+			}
+			b, isB := constBool(st.Val)
+			return isB && b
+		}
+		setsKey := func(in ssa.Instruction) bool { _, ok := isFieldStore(in, "macro.Engine", "currentKey"); return ok }
+		w := pathAvoiding(SR, nil, starts, setsKey)
+		r.Check(w == nil, "C18.start-record-sets-register", fnName(SR)+":currentKey", p.Pos(SR.Pos()), "currentKey is written before recording starts, on every path", "a recording can start without writing Engine.currentKey: the macro recorded with C-x ( … C-x ) is then also stored under the register of the last named recording, and @a replays the wrong macro")
+	} else {
+		r.Unk("C18.start-record-sets-register", "(*macro.Engine).StartRecord", "-", "anchor not found")
+	}
+}
+
+func checkRound8C19(c *Ctx) {
+	p, r := c.P, c.R
+	r.Rule("C19.quote-test-agrees-with-reader", "K5", "the test by which dump-variables decides to quote a string value (needsQuotes) uses the character classes by which the reader ends a bare value (the unicode predicates of inputrc.findEnd): a writer that knows fewer blanks or controls than the reader prints bare a value the reader cuts short (a no-break space, DEL, a C1 control)", 1)
+	preds := func(f *ssa.Function) map[string]bool {
+		out := map[string]bool{}
+		if f == nil {
+			return out
+		}
+		for _, fn := range withAnons(f) {
+			for _, cl := range allCalls(fn, false) {
+				if n := calleeName(cl); strings.HasPrefix(n, "unicode.Is") {
+					out[n] = true
+				}
+			}
+		}
+		return out
+	}
+	FE, NQ := p.Func("inputrc.findEnd"), p.Func("readline.needsQuotes")
+	if FE == nil || NQ == nil {
+		r.Unk("C19.quote-test-agrees-with-reader", "inputrc.findEnd / readline.needsQuotes", "-", "anchor not found")
+	} else {
+		r.Fn(fnName(FE), fnName(NQ))
+		rd, wr := preds(FE), preds(NQ)
+		var missing []string
+		for n := range rd {
+			if !wr[n] {
+				missing = append(missing, n)
+			}
+		}
+		sort.Strings(missing)
+		if len(rd) == 0 {
+			r.Unk("C19.quote-test-agrees-with-reader", fnName(FE)+":classes", p.Pos(FE.Pos()), "the reader uses no unicode predicate: anchor changed")
+		} else {
+			r.Check(len(missing) == 0, "C19.quote-test-agrees-with-reader", fnName(NQ)+":classes", p.Pos(NQ.Pos()), fmt.Sprintf("uses the reader's %d character classes", len(rd)), "needsQuotes does not test "+strings.Join(missing, ", ")+", by which the reader ends a bare value: a string variable holding such a character is dumped without quotes and read back cut short")
+		}
+	}
+	r.Rule("C19.inputrc-dump-untruncated", "K3", "the inputrc-format printer of the binds (printBindsInputrc and the helpers it calls) prints every sequence bound to a command: the list it walks is never cut by a slice with an upper bound — the human-readable listing stops after five sequences, a dump that did the same would lose the others when read back", 1)
+	if PI := p.Func("keymap.printBindsInputrc"); PI != nil {
+		r.Fn(fnName(PI))
+		fs := []*ssa.Function{PI}
+		for _, cl := range allCalls(PI, false) {
+			if h := staticCallee(cl); h != nil && inRepo(h) && len(h.Blocks) > 0 && isPrivateHelper(h) {
+				fs = append(fs, h)
+			}
+		}
+		var cut ssa.Instruction
+		for _, f := range fs {
+			eachInstr(f, func(in ssa.Instruction) {
+				sl, ok := in.(*ssa.Slice)
+				if !ok || sl.High == nil || typeStr(sl.Type()) != "[]string" {
+					return
+				}
+				// a literal array sliced whole is not a truncation
+				if _, isAlloc := sl.X.(*ssa.Alloc); isAlloc {
+					return
+				}
+				if cut == nil {
+					cut = in
+				}
+			})
+		}
+		pos := p.Pos(PI.Pos())
+		if cut != nil {
+			pos = p.IPos(cut)
+		}
+		r.Check(cut == nil, "C19.inputrc-dump-untruncated", fnName(PI)+":all-sequences", pos, "the list of sequences is walked whole", "the inputrc-format dump walks a list of sequences that was cut with an upper bound (the readable listing's five): every further sequence bound to the command (self-insert has over a hundred) is missing from the dump and lost when it is read back")
+	} else {
+		r.Unk("C19.inputrc-dump-untruncated", "keymap.printBindsInputrc", "-", "anchor not found")
+	}
+}
